@@ -217,6 +217,13 @@ pub fn step_budget(len: usize, limits: &Limits) -> u64 {
 	256u64 + 16 * len as u64 + 8u64.saturating_mul(len as u64 + 2).saturating_mul(limits.max_seq_size as u64 + 2)
 }
 
+thread_local! {
+	/// while set, `decode_reader` (Direct kinds) goes through the public `Take` trait first: a `ReaderRead` with the
+	/// configured allocation cap, `take(len)`, and the deserializer state built on what that returns — the way the
+	/// container reader walks into a block, and a way callers with their own framing may use
+	pub static VIA_TAKE: Cell<bool> = const { Cell::new(false) };
+}
+
 pub fn decode_reader(
 	schema: &Schema,
 	env: &Env,
@@ -236,8 +243,19 @@ pub fn decode_reader(
 			let (r, callbacks, max_depth) = {
 				let mut rr = ReaderRead::new(&mut src);
 				rr.max_alloc_size = limits.max_alloc_size;
-				let mut st = DeserializerState::with_config(rr, config);
-				run_target(target, env, ty, st.deserializer())
+				if VIA_TAKE.with(|v| v.get()) {
+					use serde_avro_fast::de::read::take::Take;
+					match rr.take(bytes.len()) {
+						Ok(taken) => {
+							let mut st = DeserializerState::with_config(taken, config);
+							run_target(target, env, ty, st.deserializer())
+						}
+						Err(e) => (Err(e), 0, 0),
+					}
+				} else {
+					let mut st = DeserializerState::with_config(rr, config);
+					run_target(target, env, ty, st.deserializer())
+				}
 			};
 			let consumed = src.position();
 			let io_error = r.as_ref().err().map_or(false, |e| e.io_error().is_some());
